@@ -490,6 +490,25 @@ class RngStub:
     def seed(self, s=None):
         self.seeds.append(s)
 
+    def choice(self, a, size=None, replace=True, p=None):
+        """indices drawn from range(a): symbolic integers (the solver enumerates them where an index is needed)"""
+        n = int(a)
+        k = 1 if size is None else int(size if not isinstance(size, (tuple, list)) else size[0])
+        out = []
+        for _ in range(k):
+            name = f"{self.prefix}c{self.n}"
+            self.n += 1
+            x = self.E.int(name, 0, n - 1)
+            self.draws.append(x)
+            out.append(x)
+        if not replace:
+            for i in range(k):
+                for j in range(i):
+                    self.E.assume(out[i] != out[j])
+        # plain integer arrays are indexed with the result: the solver enumerates the values here
+        arr = np.array([int(x) for x in out], dtype=int)
+        return arr[0] if size is None else arr
+
     def __getattr__(self, k):
         raise Unmodelled(f"np.random.{k} is not modelled by the RNG stub")
 
@@ -517,7 +536,7 @@ def rng(E, prefix="rng"):
         finally:
             npenv.fac.random = old
     else:
-        names = ["uniform", "random_sample", "random", "rand", "randn", "normal", "seed"]
+        names = ["uniform", "random_sample", "random", "rand", "randn", "normal", "seed", "choice"]
         saved = {k: getattr(np.random, k) for k in names}
         for k in names:
             setattr(np.random, k, getattr(stub, k))
